@@ -59,6 +59,7 @@ type catalog struct {
 	fields map[string]cval // field name -> symbolic value (per struct, reset each time)
 	st     *types.Struct
 	recv   string
+	fieldFn func(name string) (cval, bool) // when set: fields are read from a symbolic heap instead
 }
 
 func (c *catalog) decl(name, sort string) string {
@@ -102,6 +103,9 @@ func (g *Gen) nodeInterface() *types.Interface {
 }
 
 func (c *catalog) fieldVal(name string) (cval, bool) {
+	if c.fieldFn != nil {
+		return c.fieldFn(name)
+	}
 	if v, ok := c.fields[name]; ok {
 		return v, true
 	}
